@@ -16,34 +16,43 @@ ObsFull(es) == { es[i] : i \in 1..Len(es) }
 ObsAt(es, p) == { es[i] : i \in { j \in 1..Len(es) : es[j].p = p } }
 
 \* the observed `after` as a model state is only needed through views
+\* everything that depends on the scenario only is bound once (TLC evaluates a LET definition at most once per use site)
 Clauses(r) ==
   LET s == r.sc
       ex == r.exit
       av == ObsView(r.after)
+      rej == Rejected(s)
+      vis == IF rej THEN {} ELSE Visits(s)
+      ref == IF rej THEN Fail(FS0(s)) ELSE RefExec(Ok(FS0(s)), s, vis)
+      exp == ref.fs
+      expView == View(exp)
       unchanged(p) == ObsAt(r.before, p) = ObsAt(r.after, p)
-      c02 == (ex = 0) => av = View(ExpectedFS(s))
-      mapped == MappedCanon(s)
+      sameKind(p) == ObsView(SelectSeq(r.before, LAMBDA x : x.p = p)) = ObsView(SelectSeq(r.after, LAMBDA x : x.p = p))
+      mapped == { Resolve(exp, v.to, v.k = "file") : v \in { w \in vis : ~w.err } }
+      prot == UnderSources(s) \cup { e \in FS0(s) : e.p \notin mapped }
       \* a directory that merely contains a mapped destination legitimately gets a new mtime: compare kind only
       parentOfMapped(p) == \E q \in mapped : ~IsErr(q) /\ IsPrefix(p, q) /\ p # q
-      sameKind(p) == ObsView(SelectSeq(r.before, LAMBDA x : x.p = p)) = ObsView(SelectSeq(r.after, LAMBDA x : x.p = p))
-      c03 == \A e \in Protected(s) : IF e.k = "dir" /\ parentOfMapped(e.p) THEN sameKind(e.p) ELSE unchanged(e.p)
-      c08 == s.n => (\A e \in FS0(s) : IF e.k = "dir" THEN sameKind(e.p) ELSE unchanged(e.p)) /\ (Collides(s) => ex # 0)
-      c13 == s.L => /\ (ex = 0 => (\A e \in av : e.k = "link" => e \in View(FS0(s))) /\ av = View(ExpectedFS(s)))
-                    /\ ((~Rejected(s) /\ \E v \in Visits(s) : v.err /\ v.k = "none") => ex # 0)
+      collides == ~rej /\ \E v \in vis : v.k # "dir" /\ ~v.err /\ ExistsL(FS0(s), v.to)
+      c02 == (ex = 0) => av = expView
+      c03 == \A e \in prot : IF e.k = "dir" /\ parentOfMapped(e.p) THEN sameKind(e.p) ELSE unchanged(e.p)
+      c08 == s.n => (\A e \in FS0(s) : IF e.k = "dir" THEN sameKind(e.p) ELSE unchanged(e.p)) /\ (collides => ex # 0)
+      c13 == s.L => /\ (ex = 0 => (\A e \in av : e.k = "link" => e \in View(FS0(s))) /\ av = expView)
+                    /\ ((~rej /\ \E v \in vis : v.err /\ v.k = "none") => ex # 0)
       modeAt(es, p) == LET S == { es[i].m : i \in { j \in 1..Len(es) : es[j].p = p } } IN IF S = {} THEN -1 ELSE CHOOSE m \in S : TRUE
       nodeOk(v) ==           \* same type and device number, source permission bits limited by the umask
-        LET q == Resolve(ExpectedFS(s), v.to, FALSE)
+        LET q == Resolve(exp, v.to, FALSE)
             sm == modeAt(r.before, Resolve(FS0(s), v.from, FALSE))
         IN  /\ ~IsErr(q)
             /\ [p |-> q, k |-> v.k, c |-> v.c] \in av
             /\ sm >= 0 /\ modeAt(r.after, q) = sm - (sm & r.umask)
-      c14 == /\ (~Rejected(s) /\ \E v \in Visits(s) : v.k = "blk") => ex # 0
-             /\ (ex = 0 /\ ~Rejected(s)) => \A v \in Visits(s) : (Special(v.k) /\ ~v.err) => nodeOk(v)
+      c14 == /\ (~rej /\ \E v \in vis : v.k = "blk") => ex # 0
+             /\ (ex = 0 /\ ~rej) => \A v \in vis : (Special(v.k) /\ ~v.err) => nodeOk(v)
       \* "source identical to destination": a single file whose mapped destination is the same inode under another name
-      selfCopy == ~Rejected(s) /\ Cardinality(Visits(s)) = 1 /\ \E v \in Visits(s) : v.k = "file" /\ SameFile(FS0(s), v.from, v.to)
-      c16 == (Rejected(s) \/ selfCopy) => ex # 0 /\ ObsFull(r.before) = ObsFull(r.after)
-  IN  (IF c02 THEN {} ELSE {"C02"}) \cup (IF c03 THEN {} ELSE {"C03"}) \cup (IF c08 THEN {} ELSE {"C08"})
-      \cup (IF c13 THEN {} ELSE {"C13"}) \cup (IF c14 THEN {} ELSE {"C14"}) \cup (IF c16 THEN {} ELSE {"C16"})
+      selfCopy == ~rej /\ Cardinality(vis) = 1 /\ \E v \in vis : v.k = "file" /\ SameFile(FS0(s), v.from, v.to)
+      c16 == (rej \/ selfCopy) => ex # 0 /\ ObsFull(r.before) = ObsFull(r.after)
+  IN  [viol |-> (IF c02 THEN {} ELSE {"C02"}) \cup (IF c03 THEN {} ELSE {"C03"}) \cup (IF c08 THEN {} ELSE {"C08"})
+                \cup (IF c13 THEN {} ELSE {"C13"}) \cup (IF c14 THEN {} ELSE {"C14"}) \cup (IF c16 THEN {} ELSE {"C16"}),
+       expectOk |-> ref.ok, rejected |-> rej]
 
 RECURSIVE SetToSeq(_)
 SetToSeq(S) == IF S = {} THEN <<>> ELSE LET x == CHOOSE x \in S : TRUE IN <<x>> \o SetToSeq(S \ {x})
@@ -53,8 +62,9 @@ Init == l = 1
 Step ==
   /\ l <= Len(Rec)
   /\ LET r == Rec[l] IN
-     PrintT(<<"VERDICT", ToJson([id |-> r.sc.id, driver |-> r.driver, run |-> r.run, viol |-> SetToSeq(Clauses(r)),
-                                 expectOk |-> ExpectOk(r.sc), rejected |-> Rejected(r.sc), exit |-> r.exit])>>)
+     LET c == Clauses(r) IN
+     PrintT(<<"VERDICT", ToJson([id |-> r.sc.id, driver |-> r.driver, run |-> r.run, viol |-> SetToSeq(c.viol),
+                                 expectOk |-> c.expectOk, rejected |-> c.rejected, exit |-> r.exit])>>)
   /\ l' = l + 1
 Spec == Init /\ [][Step]_l
 AllRead == TLCGet("stats").diameter - 1 = Len(Rec)
